@@ -32,18 +32,41 @@ fn near_or_recognised(ty: u8, data: &[u8], b0_param: u8) -> bool {
 
 pub fn check_frame(c: &FrameCase, st: &mut Stats) -> Result<(), String> {
     let want = ref_classify(c.addr, c.ty, &c.data);
-    for owned in [true, false] {
-        let how = if owned { "owned" } else { "borrowed" };
-        let r = catch(|| -> Result<(), String> {
-            let mk = || {
-                if owned {
-                    Frame::new(Address(c.addr), MsgType(c.ty), Data::try_new(c.data.clone()).unwrap())
-                } else {
-                    Frame::new(Address(c.addr), MsgType(c.ty), Data::try_new(&c.data[..]).unwrap())
+    // the same frame value built in different ways: from an owned block, from a borrowed block, and from blocks that came
+    // out of the library itself (the data of a frame made from a message, of a decoded frame) - where a block comes from
+    // must not matter, only its bytes
+    let mut ways: Vec<(String, Frame<'_>)> = vec![
+        ("owned".into(), Frame::new(Address(c.addr), MsgType(c.ty), Data::try_new(c.data.clone()).unwrap())),
+        ("borrowed".into(), Frame::new(Address(c.addr), MsgType(c.ty), Data::try_new(&c.data[..]).unwrap())),
+    ];
+    if c.data.len() <= 2 {
+        let donors = catch(|| {
+            let mut v: Vec<(String, Data<'static>)> = vec![];
+            let mut cands = all_addressed(c.addr);
+            if c.data.len() == 2 {
+                cands.push(M::Count(u16::from_be_bytes([c.data[0], c.data[1]])));
+                cands.push(M::Count(u16::from_le_bytes([c.data[0], c.data[1]])));
+            }
+            for cand in cands {
+                let f = Frame::from(cand.to_message());
+                if f.data().as_ref() == &c.data[..] {
+                    v.push((format!("data taken from the frame of {}", cand.short()), f.into_data()));
                 }
-            };
-            let f = mk();
-            let m = Message::from(mk());
+            }
+            v
+        })
+        .map_err(|p| format!("panic building a frame from a message: {p}"))?;
+        for (how, d) in donors {
+            ways.push((how, Frame::new(Address(c.addr), MsgType(c.ty), d)));
+        }
+    }
+    if let Ok(Ok(dec)) = catch(|| Frame::from_bytes(&crate::oracle::hex::ref_encode(c.addr ^ 0x0180, c.ty.wrapping_add(3), &c.data))) {
+        ways.push(("data taken from a decoded frame".into(), Frame::new(Address(c.addr), MsgType(c.ty), dec.into_data())));
+    }
+    for (how, f) in ways {
+        let how = how.as_str();
+        let r = catch(|| -> Result<(), String> {
+            let m = Message::from(f.clone());
             // (1) identity
             let back = Frame::from(m.clone());
             if back != f {
@@ -175,6 +198,42 @@ pub fn run(ctx: &Ctx) {
         Ok(())
     });
     ctx.part_done("addresses-x-codes", true, json!("65536 addresses x (36 recognised fixed-size codes + data chunks of 5 lengths)"));
+
+    // mass probe: very many distinct frames of the recognised types whose data is too long for any code; each must be
+    // classified by the table (almost always: unknown, wrapping the same frame). Only volume can meet a recogniser
+    // that decides on a lossy digest of the frame instead of its fields; frames are a counter-mode function of
+    // (seed, job, k).
+    const PROBES_PER_JOB: u64 = 65_536;
+    let jobs = ctx.tier.pick(8_000u64, 80_000u64);
+    par_range(ctx, "mass-unrecognised", jobs, |job, st| {
+        let mut x = h64(&("c04-mass", ctx.seed, job));
+        for _ in 0..PROBES_PER_JOB {
+            x = x.wrapping_add(0x9E37_79B9_7F4A_7C15);
+            let mut z = x;
+            z = (z ^ (z >> 30)).wrapping_mul(0xBF58_476D_1CE4_E5B9);
+            z = (z ^ (z >> 27)).wrapping_mul(0x94D0_49BB_1331_11EB);
+            z ^= z >> 31;
+            let ty = 1 + (z % 7) as u8; // 1..=7: the types the table lives in, plus one beyond
+            let n = 3 + ((z >> 3) % 6) as usize; // 3..=8 data bytes
+            let w = x.wrapping_mul(0xD6E8_FEB8_6659_FD93) ^ (z >> 7);
+            let bytes = w.to_le_bytes();
+            let addr = (z >> 48) as u16;
+            let f = Frame::new(Address(addr), MsgType(ty), Data::try_new(bytes[..n].to_vec()).unwrap());
+            let fast_ok = match catch(|| Message::from(f.clone())) {
+                Ok(Message::Unknown(g)) => g == f,
+                _ => false,
+            };
+            if !fast_ok {
+                let c = FrameCase { addr, ty, data: bytes[..n].to_vec() };
+                let mut tmp = Stats::new();
+                check_frame(&c, &mut tmp).map_err(|m| (serde_json::to_value(&c).unwrap(), m))?;
+            }
+        }
+        st.evals(PROBES_PER_JOB);
+        st.class_n("mass:types1-7,len3-8", PROBES_PER_JOB);
+        Ok(())
+    });
+    ctx.part_done("mass-unrecognised", false, json!({"probes": jobs * PROBES_PER_JOB, "what": "distinct frames of types 1..=7 with 3..=8 data bytes, each judged by the table (unknown wrapping the same frame)"}));
 
     // generated frames (any type, any data) -------------------------------------------------
     run_generated(
